@@ -1099,6 +1099,7 @@ impl<'layout, 'out> TableWriter<'layout, 'out> {
         symbol_index: u32,
         kind: DynamicRelocationKind,
     ) -> Result {
+        #[cfg(not(kani))] // verification hook: tracing macros make kani-compiler 0.68 panic
         let _span = tracing::trace_span!("write_dynamic_symbol_relocation").entered();
         debug_assert_bail!(
             self.output_kind.needs_dynsym(),
@@ -1136,6 +1137,7 @@ impl<'layout, 'out> TableWriter<'layout, 'out> {
     }
 
     fn take_rela_dyn(&mut self) -> Result<&mut object::elf::Rela64<LittleEndian>> {
+        #[cfg(not(kani))] // verification hook: tracing macros make kani-compiler 0.68 panic
         tracing::trace!("Consume .rela.dyn general");
         self.rela_dyn_general
             .split_off_first_mut()
